@@ -38,7 +38,13 @@ type Img struct {
 	Content string // class label (informational)
 	Alpha   string // class label (informational)
 	Colors  int    // number of distinct intended pixels (capped at 300)
+
+	backing []byte // whole backing buffer (parent included) of the last Build, nrgba/rgba kinds
 }
+
+// Backing returns the entire backing buffer of the image returned by the last Build call
+// (nil for kinds other than nrgba/rgba).
+func (s *Img) Backing() []byte { return s.backing }
 
 func (s *Img) String() string {
 	return fmt.Sprintf("%dx%d %s/%s %s/%s colors=%d", s.W, s.H, s.Kind, s.Place, s.Content, s.Alpha, s.Colors)
@@ -126,6 +132,7 @@ func (s *Img) Build() image.Image {
 				}
 			}
 		}
+		s.backing = pix
 		if s.Kind == "rgba" {
 			// garbage outside the picture must still be valid premultiplied data? It is never
 			// read as a pixel of the picture, so arbitrary bytes are fine.
